@@ -96,18 +96,24 @@ def install_builders(R, prop):
                ensures=['memo_ok(self)', 'result is not None and cls_is(result, DNSPointer)',
                         # PTR: <type> -> <instance>, class IN WITHOUT the cache-flush bit, the service's "other" TTL unless overridden
                         'result.name == self.type and result.alias == self._name and result.type == 12 and result.class_ == 1 and not result.unique',
-                        'result.ttl == %s' % TTLO])
+                        'result.ttl == %s' % TTLO,
+                        # without an override the record is the memo (built once per state of the service)
+                        'implies(override_ttl is None, self._dns_pointer_cache is result)'])
     R.contract(I, 'ServiceInfo._dns_service', prop, params={'override_ttl': 'optint'}, returns='DNSService',
                requires=['memo_ok(self)'], modifies=['self._dns_service_cache'],
                ensures=['memo_ok(self)', 'result is not None and cls_is(result, DNSService)',
                         # SRV: instance name, cache-flush bit set, host TTL unless overridden, current port
                         'result.name == self._name and result.type == 33 and result.class_ == 1 and result.unique and result.port == self.port',
-                        'result.ttl == %s' % TTLH])
+                        'result.ttl == %s' % TTLH,
+                        # without an override the record is the memo (built once per state of the service)
+                        'implies(override_ttl is None, self._dns_service_cache is result)'])
     R.contract(I, 'ServiceInfo._dns_text', prop, params={'override_ttl': 'optint'}, returns='DNSText',
                requires=['memo_ok(self)'], modifies=['self._dns_text_cache'],
                ensures=['memo_ok(self)', 'result is not None and cls_is(result, DNSText)',
                         'result.name == self._name and result.type == 16 and result.class_ == 1 and result.unique and result.text == self.text',
-                        'result.ttl == %s' % TTLO])
+                        'result.ttl == %s' % TTLO,
+                        # without an override the record is the memo (built once per state of the service)
+                        'implies(override_ttl is None, self._dns_text_cache is result)'])
     for nm in ('dns_pointer', 'dns_service', 'dns_text'):
         c = R.contracts[(I, 'ServiceInfo._' + nm)]
         R.contract(I, 'ServiceInfo.' + nm, prop, params={'override_ttl': 'optint'}, returns=c.returns,
@@ -122,6 +128,9 @@ def install_builders(R, prop):
                         '   and (i.type == 1 or i.type == 28 or i.type == 47) and result.keyobj(i).unique '
                         '   and result.keyobj(i).ttl == ttl_or(override_ttl, self.host_ttl)))'],
                note='address records of the host and the NSEC record for the missing address types, with the host TTL or the override')
+    c = R.contracts[(I, 'ServiceInfo.get_address_and_nsec_records')]
+    R.contract(I, 'ServiceInfo._get_address_and_nsec_records', prop, params={'override_ttl': 'optint'}, returns='set[DNSRecord]',
+               trusted=True, modifies=[], ensures=list(c.ensures), note=c.note)
 
 
 def install_announce(R, prop):
